@@ -18,11 +18,80 @@ variable {α : Type} [LinearOrder α]
 
 /-- **C08.reorder_perm** — `reorder_peptides` is a function of the MULTISET of its input. -/
 theorem reorder_perm {l l' : List (DbPep α)} (h : l.Perm l') : reorder l = reorder l' :=
-  reorder_sort_irrelevant l' (l.mergeSort keyLe) ((List.mergeSort_perm l _).trans h) (sorted_mergeSort_key l)
+  reorder_sort_irrelevant l' (l.mergeSort keyLe) ((dedupBy (l.mergeSort keyLe)).mergeSort massKeyLe)
+    ((List.mergeSort_perm l _).trans h) (sorted_mergeSort_key l) (List.mergeSort_perm _ _) (sorted_mergeSort_mk _)
 
 /-- non-vacuity: `Ex.l` reversed is a different list with the same database -/
 example : Ex.l.reverse ≠ Ex.l ∧ reorder Ex.l.reverse = reorder Ex.l :=
   ⟨by decide, reorder_perm (List.reverse_perm _)⟩
+
+/-- **C08.no_two_entries_same_form** — after `reorder_peptides`, for EVERY input list — whatever masses its
+elements carry, from however many builds they come — no two entries share (sequence, modifications, nterm,
+cterm). (Before the repair this needed equal masses: a generated decoy and the mirror-image target of another
+chunk, whose f32 sums differ in the last bit, both survived.) -/
+theorem no_two_entries_same_form (l : List (DbPep α)) :
+    (reorder l).Pairwise (fun a b =>
+      ¬ (a.core.sequence = b.core.sequence ∧ a.core.mods = b.core.mods ∧ a.core.nterm = b.core.nterm ∧
+         a.core.cterm = b.core.cterm)) := by
+  refine (reorder_keyNe l).imp ?_
+  intro a b h ⟨e1, e2, e3, e4⟩
+  exact h (by simp [keyOf, e1, e2, e3, e4])
+
+/-- non-vacuity: a target `GK` of mass 203 and a decoy `GK` of mass 204 (one ulp apart, as it were): ONE entry,
+    a target, with the smaller mass and the proteins of both -/
+example : (reorder [Ex.mk 204 none true .internal [[80, 49]], Ex.mk 203 none false .nterm [[80, 50]]]).map
+    (fun e => (e.core.mono, e.decoy, e.proteins)) = [(203, false, [[80, 49], [80, 50]])] := by
+  have hs : [Ex.mk 204 none true .internal [[80, 49]], Ex.mk 203 none false .nterm [[80, 50]]].Pairwise
+      (fun a b => keyLe a b = true) := by decide
+  unfold reorder
+  rw [List.mergeSort_of_pairwise hs]
+  simp [Ex.mk, dedupBy, dedupGo, keyEq, cmpKey, cmpOf, lexList, cmpNat, cmpOpt, merge, finishProteins, dedupAdj,
+    sortStr, List.mergeSort, List.MergeSort.Internal.splitInTwo, leStr, cmpStr, Ordering.then, minOf, posMin, pos6Rank]
+
+/-- **C08.no_decoy_with_target_sequence** — C07's clause for a merged database: if every decoy form of the input
+whose residue sequence is also the sequence of some target form has a target TWIN with the same (sequence,
+modifications, nterm, cterm) in the input, then no decoy entry of the database has the sequence of a target
+entry. The twin hypothesis holds in the chunked build when nothing is dropped and no protein-terminal
+modification is configured (a mirror-image target carries every placement its reversed decoy carries); it can
+fail with `[` / `]` modifications or a dropped subset — there the clause can fail as coded. -/
+theorem no_decoy_with_target_sequence (l : List (DbPep α))
+    (twin : ∀ d ∈ l, d.decoy = true → ∀ t ∈ l, t.decoy = false → t.core.sequence = d.core.sequence →
+      ∃ t2 ∈ l, t2.decoy = false ∧ keyOf t2 = keyOf d) :
+    ∀ e ∈ reorder l, e.decoy = true → ∀ e' ∈ reorder l, e'.decoy = false →
+      e'.core.sequence ≠ e.core.sequence := by
+  intro e he hdec e' he' htar hseq
+  obtain ⟨⟨d, hd, hkd⟩, _, hdecoy, _⟩ := (db_entries_exact l).1 e he
+  obtain ⟨_, _, hdecoy', _⟩ := (db_entries_exact l).1 e' he'
+  have hall := hdecoy.1 hdec
+  -- a target member of the class of e'
+  have : ∃ t ∈ l, keyOf t = keyOf e' ∧ t.decoy = false := by
+    by_contra hn
+    have : e'.decoy = true := hdecoy'.2 (fun p hp hk => by
+      cases hpd : p.decoy with
+      | true => rfl
+      | false => exact absurd ⟨p, hp, hk, hpd⟩ hn)
+    rw [htar] at this; cases this
+  obtain ⟨t, ht, hkt, htd⟩ := this
+  have hseqt : t.core.sequence = d.core.sequence := by
+    have a1 : t.core.sequence = e'.core.sequence := by
+      have := congrArg Prod.fst hkt; simpa [keyOf] using this
+    have a2 : d.core.sequence = e.core.sequence := by
+      have := congrArg Prod.fst hkd; simpa [keyOf] using this
+    rw [a1, a2, hseq]
+  obtain ⟨t2, ht2, ht2d, hk2⟩ := twin d hd (hall d hd hkd) t ht htd hseqt
+  have := hall t2 ht2 (by rw [hk2, hkd])
+  rw [ht2d] at this; cases this
+
+/-- non-vacuity: in `[decoy GK (P1), target GK (P2)]` the decoy has its target twin; the database has no decoy at all -/
+example : ∀ e ∈ reorder [Ex.mk 204 none true .internal [[80, 49]], Ex.mk 203 none false .nterm [[80, 50]]],
+    e.decoy = true → ∀ e' ∈ reorder [Ex.mk 204 none true .internal [[80, 49]], Ex.mk 203 none false .nterm [[80, 50]]],
+    e'.decoy = false → e'.core.sequence ≠ e.core.sequence := by
+  apply no_decoy_with_target_sequence
+  intro d hd hdd t ht htd _
+  simp only [List.mem_cons, List.not_mem_nil, or_false] at hd ht
+  rcases hd with rfl | rfl
+  · exact ⟨Ex.mk 203 none false .nterm [[80, 50]], by simp, rfl, by decide⟩
+  · simp [Ex.mk] at hdd
 
 /-- **C08.prefilter_order_free** — in the chunked prefilter build the order in which the kept peptides of the
 chunks are concatenated (a `HashSet` iteration order in the code) is irrelevant: for every arrangement `s` of
@@ -40,7 +109,8 @@ example : reorder (prefilterConcat 0 false [[Ex.mk 203 none true .internal [[80,
   exact List.Perm.swap _ _ _
 
 /-- **C08.cross_chunk_merge** — whatever else the concatenation contains and in whatever order: if it contains a
-target and a decoy with the same key (the generated decoy of one chunk and the mirror-image target of another),
+target and a decoy with the same (sequence, modifications, nterm, cterm) — the generated decoy of one chunk and the
+mirror-image target of another, WHATEVER their two f32 masses —,
 the database has exactly one entry with that key (`db_sorted_unique`), and that entry is a TARGET listing the
 proteins of both. -/
 theorem cross_chunk_merge (l : List (DbPep α)) (t d : DbPep α) (ht : t ∈ l) (hd : d ∈ l)
